@@ -1599,4 +1599,194 @@ theorem nilSafe_true : ∀ (p : Policy), nilSafe true p = true
   | .keyed false fb => by simp [nilSafe, nilSafe_true fb]
   | .cookie _ fb => by simp [nilSafe, nilSafe_true fb]
 
+/-! ### the proxy loop: in-flight counts and the request limit -/
+
+theorem mkPool_get (m : Nat) : ∀ (ids ls : List Nat) (i : Nat) (u : Up),
+    (mkPool m ids ls)[i]? = some u → ls[i]? = some u.load ∧ u.maxReq = m
+  | [], _, i, u, h => by simp [mkPool] at h
+  | _ :: _, [], i, u, h => by simp [mkPool] at h
+  | id :: ids, l :: ls, 0, u, h => by
+    simp [mkPool] at h; subst h; simp
+  | id :: ids, l :: ls, i + 1, u, h => by
+    simp [mkPool] at h
+    simpa using mkPool_get m ids ls i u h
+
+theorem avail_below_limit {u : Up} (h : u.avail = true) (hm : 0 < u.maxReq) : u.load < u.maxReq := by
+  simp [Up.avail, Up.full] at h
+  omega
+
+theorem incAt_get : ∀ (ls : List Nat) (i j : Nat), (incAt ls i)[j]? = if j = i then (ls[j]?).map (· + 1) else ls[j]?
+  | [], i, j => by simp [incAt]
+  | l :: ls, 0, 0 => by simp [incAt]
+  | l :: ls, 0, j + 1 => by simp [incAt]
+  | l :: ls, i + 1, 0 => by simp [incAt]
+  | l :: ls, i + 1, j + 1 => by
+    simp only [incAt, List.getElem?_cons_succ, incAt_get ls i j]
+    by_cases h : j = i <;> simp [h]
+
+theorem decAt_get : ∀ (ls : List Nat) (i j : Nat), (decAt ls i)[j]? = if j = i then (ls[j]?).map (· - 1) else ls[j]?
+  | [], i, j => by simp [decAt]
+  | l :: ls, 0, 0 => by simp [decAt]
+  | l :: ls, 0, j + 1 => by simp [decAt]
+  | l :: ls, i + 1, 0 => by simp [decAt]
+  | l :: ls, i + 1, j + 1 => by
+    simp only [decAt, List.getElem?_cons_succ, decAt_get ls i j]
+    by_cases h : j = i <;> simp [h]
+
+theorem incAt_length : ∀ (ls : List Nat) (i : Nat), (incAt ls i).length = ls.length
+  | [], _ => rfl
+  | _ :: _, 0 => rfl
+  | l :: ls, i + 1 => by simp [incAt, incAt_length ls i]
+
+theorem decAt_length : ∀ (ls : List Nat) (i : Nat), (decAt ls i).length = ls.length
+  | [], _ => rfl
+  | _ :: _, 0 => rfl
+  | l :: ls, i + 1 => by simp [decAt, decAt_length ls i]
+
+theorem all_le_of_get {ls : List Nat} {m : Nat} (h : ∀ (j l : Nat), ls[j]? = some l → l ≤ m) : ∀ x ∈ ls, x ≤ m := by
+  intro x hx
+  obtain ⟨j, hj, hget⟩ := List.getElem_of_mem hx
+  exact h j x (by simp [hj, hget])
+
+theorem get_le_of_all {ls : List Nat} {m : Nat} (h : ∀ x ∈ ls, x ≤ m) : ∀ (j l : Nat), ls[j]? = some l → l ≤ m :=
+  fun _ l hl => h l (List.mem_of_getElem? hl)
+
+theorem count_setNone : ∀ (hs : List (Option Nat)) (k i j : Nat), hs[k]? = some (some i) →
+    (setNone hs k).count (some j) = hs.count (some j) - (if j = i then 1 else 0)
+  | [], k, i, j, h => by simp at h
+  | x :: hs, 0, i, j, h => by
+    simp at h; subst h
+    simp only [setNone, List.count_cons]
+    by_cases hji : j = i <;> simp [hji]
+    intro hij; exact absurd hij.symm hji
+  | x :: hs, k + 1, i, j, h => by
+    simp at h
+    have ih := count_setNone hs k i j h
+    simp only [setNone, List.count_cons, ih]
+    have hpos : j = i → 0 < hs.count (some j) := by
+      intro hji; subst hji
+      exact List.count_pos_iff.2 (List.mem_of_getElem? h)
+    by_cases hji : j = i
+    · have := hpos hji
+      subst hji
+      by_cases hx : x = some j <;> simp [hx] <;> omega
+    · simp [hji]
+
+/-- the selection made for an arriving request, as an index into the address list -/
+theorem select_idx_available {m : Nat} {ids : List Nat} {s : PState} {i : Nat}
+    (h : selIdx (select true s.pol (mkPool m ids s.loads) s.draws).res = some i) :
+    ∃ l, s.loads[i]? = some l ∧ (0 < m → l < m) := by
+  have hres : (select true s.pol (mkPool m ids s.loads) s.draws).res = .sel i := by
+    revert h
+    cases (select true s.pol (mkPool m ids s.loads) s.draws).res <;> simp [selIdx]
+  obtain ⟨u, hu, hav⟩ := select_safe _ _ _ _ i hres
+  obtain ⟨h1, h2⟩ := mkPool_get m ids s.loads i u hu
+  exact ⟨u.load, h1, fun hm => by have := avail_below_limit hav (by omega); omega⟩
+
+/-- invariant: no address carries more requests than the limit, and `loads` counts exactly
+    the held requests that are in flight -/
+def PInv (m : Nat) (s : PState) : Prop :=
+  (0 < m → ∀ (j l : Nat), s.loads[j]? = some l → l ≤ m) ∧
+  ∀ (j l : Nat), s.loads[j]? = some l → l = s.held.count (some j)
+
+theorem pstep_inv (m : Nat) (ids : List Nat) (s : PState) (e : Ev) (h : PInv m s) : PInv m (pstep m ids s e).2 := by
+  unfold PInv at h ⊢
+  cases e with
+  | quick => simpa only [pstep] using h
+  | hold =>
+    simp only [pstep]
+    cases hsel : selIdx (select true s.pol (mkPool m ids s.loads) s.draws).res with
+    | none =>
+      refine ⟨h.1, ?_⟩
+      intro j l hl
+      simp only [List.count_append]
+      have := h.2 j l hl
+      simp [this]
+    | some i =>
+      obtain ⟨li, hli, hlt⟩ := select_idx_available hsel
+      constructor
+      · intro hm j l hl
+        simp only [incAt_get] at hl
+        by_cases hji : j = i
+        · subst hji
+          simp [hli] at hl
+          have := hlt hm; omega
+        · simp [hji] at hl
+          exact h.1 hm j l hl
+      · intro j l hl
+        simp only [incAt_get] at hl
+        simp only [List.count_append]
+        by_cases hji : j = i
+        · subst hji
+          simp [hli] at hl
+          have := h.2 j li hli
+          simp; omega
+        · simp [hji] at hl
+          have := h.2 j l hl
+          have hne : ¬(i = j) := fun hh => hji hh.symm
+          simp [this, hne]
+  | fin k =>
+    simp only [pstep]
+    split
+    · rename_i i hk
+      constructor
+      · intro hm j l hl
+        simp only [decAt_get] at hl
+        by_cases hji : j = i
+        · subst hji
+          cases hlj : s.loads[j]? with
+          | none => simp [hlj] at hl
+          | some x =>
+            simp [hlj] at hl
+            have := h.1 hm j x hlj; omega
+        · simp [hji] at hl
+          exact h.1 hm j l hl
+      · intro j l hl
+        simp only [decAt_get] at hl
+        rw [count_setNone s.held k i j hk]
+        by_cases hji : j = i
+        · subst hji
+          cases hlj : s.loads[j]? with
+          | none => simp [hlj] at hl
+          | some x =>
+            simp [hlj] at hl
+            have := h.2 j x hlj
+            simp; omega
+        · simp [hji] at hl
+          have := h.2 j l hl
+          simp [hji, this]
+    · exact h
+
+theorem prun_inv (m : Nat) (ids : List Nat) : ∀ (evs : List Ev) (s : PState), PInv m s → PInv m (prun m ids s evs).2
+  | [], s, h => h
+  | e :: evs, s, h => by
+    simp only [prun]
+    exact prun_inv m ids evs _ (pstep_inv m ids s e h)
+
+theorem pinit_inv (m : Nat) (p : Policy) (ids ds : List Nat) : PInv m (pinit p ids ds) := by
+  constructor
+  · intro _ j l hl
+    simp [pinit] at hl
+    omega
+  · intro j l hl
+    simp [pinit] at hl
+    simp [pinit]; omega
+
+theorem mkPool_avail (m : Nat) : ∀ (ids ls : List Nat) (u : Up), u ∈ mkPool m ids ls →
+    (u.avail = true ↔ ¬(0 < m ∧ m ≤ u.load)) ∧ u.maxReq = m
+  | [], _, u, h => by simp [mkPool] at h
+  | _ :: _, [], u, h => by simp [mkPool] at h
+  | id :: ids, l :: ls, u, h => by
+    simp only [mkPool, List.mem_cons] at h
+    rcases h with h | h
+    · subst h
+      by_cases hm : m = 0 <;> simp [Up.avail, Up.isHealthy, Up.full, hm] <;> omega
+    · exact mkPool_avail m ids ls u h
+
+theorem outOf_sent {r : Res} {i : Nat} (h : outOf r = .sent i) : r = .sel i := by
+  cases r <;> simp [outOf] at h; subst h; rfl
+
+theorem outOf_refused {r : Res} (h : outOf r = .refused) : r = .none := by
+  cases r <;> simp [outOf] at h; rfl
+
 end CaddyModel.C08
